@@ -29,6 +29,8 @@ type Step struct {
 	Variable bool          `json:"variable,omitempty"`
 	Buckets  []BucketWrite `json:"buckets,omitempty"`
 	Us       int           `json:"us,omitempty"` // sleep microseconds
+	// ReadBack: query the written intervals right after the write returned and record R <id> ok|stale.
+	ReadBack bool `json:"read_back,omitempty"`
 }
 
 // History is executed by wlchild.
